@@ -150,6 +150,9 @@ impl Out {
             }
         }
         self.ops += w.nops as u64;
+        for (k, v) in crate::world::take_ep() {
+            *self.hist.entry(format!("ep:{k}")).or_insert(0) += v;
+        }
         *self.hist.entry(format!("family:{family}")).or_insert(0) += 1;
         match r {
             Ok(()) => drop(w),
